@@ -91,6 +91,8 @@ type C18Scenario struct {
 	Strict   bool     `json:"strict"`
 	Sessions []int    `json:"sessions"` // each entry: the session's read fails after this many events; the last session is fault-free
 	Paged    int      `json:"paged,omitempty"` // >0: hide the streamer, replay in pages of this size
+	// Reattach: every resumed session starts by registering the same collections again
+	Reattach bool `json:"reattach,omitempty"`
 }
 
 func genC18(rt *rapid.T) core.Scenario {
@@ -102,6 +104,7 @@ func genC18(rt *rapid.T) core.Scenario {
 		sc.Msgs = append(sc.Msgs, m)
 	}
 	sc.Strict = rapid.IntRange(0, 3).Draw(rt, "strict") == 3
+	sc.Reattach = rapid.IntRange(0, 2).Draw(rt, "reattach") == 2
 	ns := rapid.IntRange(0, 2).Draw(rt, "nInterrupted")
 	for i := 0; i < ns; i++ {
 		sc.Sessions = append(sc.Sessions, rapid.IntRange(0, n).Draw(rt, "failAfter"))
@@ -228,12 +231,25 @@ type c18Mat struct {
 	resets   int
 	snaps    []bool
 	onErrors int
+	atReset  []int // number of entities in all collections when the reset callback ran
+}
+
+// reattach registers every collection again on the same materializer - the idempotent "attach my collections"
+// step at the start of a resumed session. The collections (and what they hold) are the same objects.
+func (c *c18Mat) reattach() {
+	state.RegisterCollection(c.m, c.users)
+	state.RegisterCollection(c.m, c.orders)
+	state.RegisterCollection(c.m, c.named)
+	state.RegisterCollection(c.m, c.tags)
+	state.RegisterCollection(c.m, c.counts)
+	state.RegisterCollection(c.m, c.admins)
+	state.RegisterCollection(c.m, c.shop)
 }
 
 func newC18Mat(strict bool) *c18Mat {
 	c := &c18Mat{}
 	opts := []state.MaterializerOption{
-		state.WithOnReset(func() { c.resets++ }),
+		state.WithOnReset(func() { c.resets++; c.atReset = append(c.atReset, len(c.snapshot())) }),
 		state.WithOnSnapshot(func(start bool) { c.snaps = append(c.snaps, start) }),
 		state.WithOnError(func(error) { c.onErrors++ }),
 	}
@@ -390,6 +406,9 @@ func (sc *C18Scenario) Execute(t *testing.T) *core.Outcome {
 		}
 		mat := newC18Mat(sc.Strict)
 		for si, failAfter := range sc.Sessions {
+			if sc.Reattach && si > 0 {
+				mat.reattach()
+			}
 			before := mat.m.LastOffset()
 			if sc.Paged > 0 {
 				fc.plan.FailRead = []int{fc.n["read"] + failAfter/sc.Paged}
@@ -406,6 +425,9 @@ func (sc *C18Scenario) Execute(t *testing.T) *core.Outcome {
 			}
 		}
 		fc.plan.FailRead, fc.plan.FailStreamRow = nil, nil
+		if sc.Reattach {
+			mat.reattach()
+		}
 		finalErr := mat.m.Replay(ctx, bus, mat.m.LastOffset())
 		strictStop := sc.Strict && applied < len(sc.Msgs)
 		if strictStop && finalErr == nil {
@@ -430,6 +452,13 @@ func (sc *C18Scenario) Execute(t *testing.T) *core.Outcome {
 		}
 		if twin.m.LastOffset() != wantLast {
 			out.V("last-offset", "single-session LastOffset=%q, expected %q", twin.m.LastOffset(), wantLast)
+		}
+		for _, m := range []*c18Mat{mat, twin} {
+			for i, n := range m.atReset {
+				if n != 0 {
+					out.V("reset-callback-before-clear", "the OnReset callback (documented as called after all collections have been cleared) found %d entities at its call no. %d", n, i)
+				}
+			}
 		}
 		if twin.resets != fold.resets || !reflect.DeepEqual(twin.snaps, fold.snaps) {
 			out.V("control-callbacks", "single session: onReset called %d times (expected %d), onSnapshot calls %v (expected %v)", twin.resets, fold.resets, twin.snaps, fold.snaps)
